@@ -311,10 +311,10 @@ class Impl:
 
     def table_of(self, c):
         """the container's own table (Container.dataframe, what printing it shows): per substance the cells Volume / Mass / Moles / U"""
+        if len({s.name for s in c.contents}) != len(c.contents):
+            return None         # namesakes share a row label in the library's table: not displayed, not read
         try:
             df = c.dataframe()
-            if len({s.name for s in c.contents}) != len(c.contents):
-                return None         # namesakes share a row label in the library's table: not read
             rows = {}
             for s in c.contents:
                 key = getattr(self, 'bykey', {}).get((s.name, s.specific_activity, s.mol_weight, s.density), self.byname.get(s.name, -1))
